@@ -428,7 +428,13 @@ def extract_fragment(src, toks, relpath, item, spec, ex):
     if pos is None:
         raise Undecided('anchor-lost', 'fragment %s: start anchor not found in fn %s' % (name, item['fn']))
     fs = next(i for i in range(ob, cb + 1) if toks[i].start >= pos[0])
-    if 'through' in item:
+    if 'through_expr' in item:
+        # the range ends with an expression (e.g. the function's final `Ok(())`), not a statement
+        p2 = find_anchor(src, pos[0], toks[cb].start, item['through_expr'], item.get('through_occurrence', 1))
+        if p2 is None:
+            raise Undecided('anchor-lost', 'fragment %s: through_expr anchor not found' % name)
+        fe = max(i for i in range(fs, cb + 1) if toks[i].end <= p2[1])
+    elif 'through' in item:
         p2 = find_anchor(src, pos[0], toks[cb].start, item['through'], 1)
         if p2 is None:
             raise Undecided('anchor-lost', 'fragment %s: through anchor not found' % name)
@@ -457,6 +463,17 @@ def extract_fragment(src, toks, relpath, item, spec, ex):
                                 'fragment; the rest of fn %s no longer depends on it only through the fragment '
                                 'result' % (name, ident, relpath, t.line, item['fn']))
     edits, loops = region_edits(src, toks, relpath, name, spec, ex, fs, fe, fs, fe)
+    # R6 (fields): `self.f` -> parameter `f` for the fields listed in unit.toml
+    for fld in item.get('self_fields', []):
+        for i in range(fs, fe - 1):
+            if toks[i].kind == 'ident' and toks[i].text == 'self' and toks[i + 1].text == '.' \
+                    and toks[i + 2].kind == 'ident' and toks[i + 2].text == fld:
+                edits.append((toks[i].start, toks[i + 2].end - toks[i].start, fld, 'rewrite:R6'))
+                ex.rewrites.append({'rule': 'R6', 'where': '%s:%d' % (relpath, toks[i].line), 'fn': item['fn'],
+                                    'before': 'self.' + fld, 'after': fld})
+    if any(t.kind == 'ident' and t.text == 'self' and not (toks[i + 1].text == '.' and toks[i + 2].text in item.get('self_fields', []))
+           for i, t in enumerate(toks[fs:fe + 1], fs)):
+        raise Undecided('unsupported', 'fragment %s: `self` is used other than through the listed fields' % name)
     header = 'fn %s%s(%s) -> (%s: %s)\n%s{\n' % (name, item.get('generics', ''), item['params'],
                                                 (spec.ret if spec and spec.ret else 'r'), item['ret'],
                                                 (spec.sig if spec else ''))
@@ -817,6 +834,10 @@ def extract_unit(unit_dir):
         used.add(key)
         try:
             mark = (len(ex.pieces), len(ex.functions), len(ex.rewrites))
+            if item.get('module'):
+                ex.pieces.append(Piece('pub mod %s {\nuse super::*;\n%s\n' % (item['module'], item.get('uses', '')),
+                                       'inject:module', key))
+                mark = (len(ex.pieces), len(ex.functions), len(ex.rewrites))
             try:
                 extract_fn(src, toks, rel, item, spec, ex)
             except Undecided as e:
@@ -837,6 +858,8 @@ def extract_unit(unit_dir):
                 extract_fn(src, toks, rel, item, bare, ex)
         except rtok.TokenizeError as e:
             raise Undecided('unsupported', '%s: %s' % (rel, e))
+        if item.get('module'):
+            ex.pieces.append(Piece('} // mod %s\n\n' % item['module'], 'inject:module', key))
     for nm in specs:
         if nm not in used:
             raise Undecided('anchor-lost', 'sidecar names fn %s which unit.toml does not extract' % nm)
@@ -935,12 +958,14 @@ def write_if_changed(path, text):
 TAG_RE = re.compile(r'//@\s*(.*)$')
 
 
-def run_verus(gen_path, extra_args, rlimit=None, timeout=1500, only_fn=None):
+def run_verus(gen_path, extra_args, rlimit=None, timeout=1500, only_fn=None, only_mod=None):
     cmd = ['verus', gen_path, '--output-json', '--time-expanded', '--multiple-errors', '12',
            '--error-format=json', '--smt-option', 'smt.random_seed=0'] + extra_args
     if rlimit:
         cmd += ['--rlimit', str(rlimit)]
-    if only_fn:
+    if only_fn and only_mod:
+        cmd += ['--verify-only-module', only_mod, '--verify-function', only_fn]
+    elif only_fn:
         cmd += ['--verify-root', '--verify-function', only_fn]
     t0 = time.time()
     try:
